@@ -173,7 +173,7 @@ func init() {
 	vrt.Register(&vrt.Prop{
 		ID: "C13", Level: "exploration",
 		Rule: "case = a generated argument shape (scalar or compound of 1-6 members: bool, intN/uintN with N in 1..130, [k]uintM arrays incl. k=0 and short literals, []uint8 slices) with boundary/random values in decimal/hex/binary/octal/negative spellings and typed Go values; " +
-			"O1 Parse(text) and Set(go) bits vs the harness's own bit-level encoder, O2 non-interference (change one member, all other members' bit ranges unchanged), O3 size inference (InputSizes vs Sizes vs instantiated width), O4 mpc.Result decode/repeat/no-mutation for widths 1..130, arrays, strings, IO.Split. Distinct = hash of (shape, values).",
+			"O1 Parse(text) and Set(go) bits vs the harness's own bit-level encoder, O2 non-interference (change one member, all other members' bit ranges unchanged), O3 size inference (InputSizes vs Sizes vs instantiated width), O4 mpc.Result decode/repeat/no-mutation for widths 1..130, arrays, strings, IO.Split, O5 a struct argument mixing sized ([k]uintM with short literals, intN) and unsized (uint, []uint8) members compiled with the sizes inferred from the written values: member widths, offsets and Parse bits. Distinct = hash of (shape, values).",
 		NumCases: func(t string) int {
 			if t == "thorough" {
 				return 40000
@@ -190,6 +190,10 @@ func runC13(cs *vrt.Case) {
 	case 0, 1:
 		c13Encode(cs, r)
 	case 2:
+		if (cs.Idx/4)%2 == 1 {
+			c13Instantiate(cs, r)
+			return
+		}
 		c13Sizes(cs, r)
 	default:
 		c13Result(cs, r)
@@ -415,6 +419,134 @@ func c13Sizes(cs *vrt.Case, r *vrt.Rng) {
 	if s, err := circuit.InputSizes([]string{hx}); err != nil || s[0] != (len(hx)-2)*4 {
 		cs.Violate("C13|hex-size", fmt.Sprintf("InputSizes(%q) = %v, %v", hx, s, err), nil)
 	}
+}
+
+// c13Instantiate is O5: a main argument that is a struct mixing sized members
+// ([k]uintM with short literals, intN/uintN, bool) with unsized ones (uint,
+// []uint8) is compiled with the sizes inferred from the written values; the
+// instantiated member widths, the member offsets and the bits Parse puts on the
+// wires must be what the declaration and the values say.
+func c13Instantiate(cs *vrt.Case, r *vrt.Rng) {
+	n := r.Range(2, 5)
+	var ms []c13Member
+	var decl []string
+	unsized := make([]bool, n)
+	anyUnsized := false
+	for i := 0; i < n; i++ {
+		m := c13GenMember(r, i)
+		for m.arg.Type.Type == types.TArray && m.arg.Type.ArraySize == 0 {
+			m = c13GenMember(r, i)
+		}
+		t := m.arg.Type
+		src := t.String()
+		switch t.Type {
+		case types.TUint:
+			if r.Intn(2) == 0 && !strings.HasPrefix(m.text, "-") {
+				unsized[i], src = true, "uint"
+			}
+		case types.TSlice:
+			unsized[i], src = true, "[]"+t.ElementType.String()
+		case types.TArray:
+			src = fmt.Sprintf("[%d]%s", t.ArraySize, t.ElementType.String())
+		}
+		anyUnsized = anyUnsized || unsized[i]
+		ms = append(ms, m)
+		decl = append(decl, fmt.Sprintf("\t%s %s", m.arg.Name, src))
+	}
+	if !anyUnsized {
+		// the path under observation is taken only for non-concrete structs
+		for i, m := range ms {
+			if m.arg.Type.Type == types.TUint && !strings.HasPrefix(m.text, "-") {
+				unsized[i] = true
+				decl[i] = fmt.Sprintf("\t%s uint", m.arg.Name)
+				anyUnsized = true
+				break
+			}
+		}
+		if !anyUnsized {
+			cs.Count("instantiate_shapes_without_unsized_member", 1)
+			return
+		}
+	}
+	var texts []string
+	for _, m := range ms {
+		texts = append(texts, m.text)
+	}
+	src := "package main\n\ntype S struct {\n" + strings.Join(decl, "\n") + "\n}\n\nfunc main(a S, b uint8) uint8 {\n\treturn b\n}\n"
+	desc := map[string]any{"kind": "instantiate", "program": src, "texts": texts}
+	cs.SetSample(desc)
+	sizes, err := circuit.InputSizes(texts)
+	if err != nil {
+		cs.Violate("C13|sizes-error", "InputSizes failed: "+err.Error(), map[string]any{"case": desc})
+		return
+	}
+	c, err, pan := compileMPCL(src, nil, [][]int{sizes, {8}})
+	if pan != nil {
+		if pan.InMPC {
+			cs.Violate("C13|instantiate-panic|"+pan.Frame, "compiling with inferred sizes panicked: "+pan.Value, map[string]any{"case": desc, "stack": pan.Stack})
+		} else {
+			cs.Inconc("harness panic: " + pan.Value)
+		}
+		return
+	}
+	if err != nil {
+		cs.Count("instantiate_programs_rejected", 1)
+		cs.Seen("instantiate_rejections", trimNum(lastLine(err.Error())))
+		return
+	}
+	st := c.Inputs[0].Type
+	if st.Type != types.TStruct || len(st.Struct) != n {
+		cs.Violate("C13|instantiate-shape", fmt.Sprintf("argument type after instantiation: %s", st), map[string]any{"case": desc})
+		return
+	}
+	truth := new(big.Int)
+	off := 0
+	for i, m := range ms {
+		f := st.Struct[i].Type
+		want := int(m.arg.Type.Bits)
+		mt := m.truth
+		switch {
+		case unsized[i] && m.arg.Type.Type == types.TUint:
+			want = sizes[i]
+		case unsized[i]: // slice of 8-bit elements
+			want = (sizes[i] + 7) / 8 * 8
+			// a hex literal fills the slice from its first element
+		}
+		cs.Evals++
+		if int(f.Bits) != want {
+			cs.Violate("C13|instantiate-width|"+m.arg.Type.Type.String(), fmt.Sprintf("member %d (%s, written %q, inferred size %d) is %d bits wide after instantiation, expected %d", i, strings.TrimSpace(decl[i]), m.text, sizes[i], f.Bits, want), map[string]any{"case": desc})
+			return
+		}
+		if int(f.Offset) != off {
+			cs.Violate("C13|instantiate-offset", fmt.Sprintf("member %d starts at bit %d, the members before it occupy %d bits", i, f.Offset, off), map[string]any{"case": desc})
+			return
+		}
+		if mt.BitLen() > want {
+			cs.Inconc(fmt.Sprintf("harness: truth of member %d does not fit its width", i))
+			return
+		}
+		truth.Or(truth, new(big.Int).Lsh(mt, uint(off)))
+		off += want
+	}
+	if int(st.Bits) != off {
+		cs.Violate("C13|instantiate-total", fmt.Sprintf("struct is %d bits, members add up to %d", st.Bits, off), map[string]any{"case": desc})
+		return
+	}
+	var got *big.Int
+	if pi := vrt.Guard(func() { got, err = c.Inputs[0].Parse(texts) }); pi != nil {
+		cs.Violate("C13|parse-panic|"+pi.Frame, "Parse panicked: "+pi.Value, map[string]any{"case": desc, "stack": pi.Stack})
+		return
+	}
+	if err != nil {
+		cs.Violate("C13|instantiate-parse-error", "Parse of the values the sizes were inferred from failed: "+err.Error(), map[string]any{"case": desc})
+		return
+	}
+	if got.Cmp(truth) != 0 {
+		cs.Violate("C13|instantiate-parse-bits", fmt.Sprintf("Parse after instantiation puts %s on the wires, the declaration and values say %s", got.Text(16), truth.Text(16)), map[string]any{"case": desc})
+		return
+	}
+	cs.Key("instantiate", src, strings.Join(texts, ","))
+	cs.Count("instantiated_struct_arguments", 1)
 }
 
 func c13Result(cs *vrt.Case, r *vrt.Rng) {
